@@ -469,6 +469,15 @@ func serveStress(s *Summary, rng *rand.Rand, n int, out *traceWriter) {
 		}
 		r, _ := buildShape(p, sh[0], gcap, sh[2], mwcap, opts...)
 		r.Add("/onlypost", p.handler([]any{"main", "p"}), "POST", "PUT", "DELETE") // (several methods in non-alphabetical order: the Allow list of a 405 gets sorted)
+		// a HEAD route of its own next to the GET route of the same dynamic pattern (a cheap "stat"): whichever of the two a
+		// request asks for, it gets that one - also from the route cache, also when both are in flight for one URL
+		r.HEAD("/b/{id}", func(c *rux.Context) {
+			if rl, ok := c.Req.Context().Value(reqLogKey{}).(*reqLog); ok {
+				rl.log = append(rl.log, []any{"main", "hb"})
+				rl.param = c.Param("id")
+			}
+			c.SetStatus(204)
+		})
 		if t%4 >= 2 {
 			// an application's own 405 handler that edits the list of allowed methods it was given (its request's data)
 			r.NotAllowed(func(c *rux.Context) {
@@ -485,7 +494,7 @@ func serveStress(s *Summary, rng *rand.Rand, n int, out *traceWriter) {
 		var wg sync.WaitGroup
 		var mu sync.Mutex
 		bad := []string{}
-		kinds := []string{"a", "b", "nf", "b", "a", "na", "rd"}
+		kinds := []string{"a", "b", "nf", "b", "a", "na", "rd", "hb"}
 		for w := 0; w < workers; w++ {
 			wg.Add(1)
 			wr := rand.New(rand.NewSource(rng.Int63()))
@@ -500,8 +509,15 @@ func serveStress(s *Summary, rng *rand.Rand, n int, out *traceWriter) {
 					if kind == "b" && encoded {
 						id = fmt.Sprintf("e%%25%d", wr.Intn(3)) // an escaped '%' in the segment; a few values, so that cache hits occur
 					}
+					if kind == "hb" && !encoded {
+						id = fmt.Sprintf("k%d", wr.Intn(3)) // the same few URLs the GET requests use
+					}
 					rid := fmt.Sprintf("%s#%d.%d", id, w, i)
 					path := servePath(kind, id)
+					reqMethod := "GET"
+					if kind == "hb" {
+						path, reqMethod = servePath("b", id), "HEAD"
+					}
 					if kind == "na" {
 						path = "/onlypost"
 					}
@@ -511,7 +527,7 @@ func serveStress(s *Summary, rng *rand.Rand, n int, out *traceWriter) {
 					if dec, err := url.PathUnescape(path); err == nil && dec != path {
 						u = &url.URL{Path: dec, RawPath: path}
 					}
-					req := (&http.Request{Method: "GET", URL: u, Header: http.Header{"X-Req": {rid}}, Proto: "HTTP/1.1"}).
+					req := (&http.Request{Method: reqMethod, URL: u, Header: http.Header{"X-Req": {rid}}, Proto: "HTTP/1.1"}).
 						WithContext(context.WithValue(context.Background(), reqLogKey{}, rl))
 					func() {
 						defer func() {
@@ -537,12 +553,17 @@ func serveStress(s *Summary, rng *rand.Rand, n int, out *traceWriter) {
 						k2 = "nf"
 					}
 					want := soloLog(k2, sh[0], sh[2])
+					if kind == "hb" { // global middleware, then the HEAD route's handler (the route has no middleware of its own)
+						want = append(soloLog("nf", sh[0], 0), []any{"main", "hb"})
+					}
 					okc := (len(got) == 0 && len(want) == 0) || reflect.DeepEqual(got, want)
 					switch kind {
 					case "a", "rd":
 						okc = okc && rec.Body.String() == "main:"+rid+":"
 					case "b":
 						okc = okc && rec.Body.String() == "main:"+rid+":"+id && par == id
+					case "hb":
+						okc = okc && rec.Code == 204 && par == id && rec.Body.Len() == 0
 					case "nf":
 						okc = okc && rec.Code == 404
 					case "na":
@@ -554,7 +575,7 @@ func serveStress(s *Summary, rng *rand.Rand, n int, out *traceWriter) {
 						mu.Unlock()
 					}
 					mu.Lock()
-					if out.n < 4000 {
+					if out.n < 4000 && kind != "hb" {
 						out.emit(map[string]any{"op": "req", "kind": k2, "glen": sh[0], "mwlen": sh[2], "log": normLogOrEmpty(got), "code": rec.Code})
 					}
 					mu.Unlock()
